@@ -807,3 +807,78 @@ func DrawHistory(t *rapid.T, s Shape, label string) []Op {
 	}
 	return append(ops, DrawOps(t, s, 0, 8, 2, label+"_mixed")...)
 }
+
+// ---------------------------------------------------------------------------------------------
+// an upload in flight: blobs written now, metadata committed later
+
+// HeldUpload is a real core.Upload running in its own goroutine (its own actor) that is held right
+// before its first metadata write (a file list or the descriptor), i.e. when all its blobs have been
+// written or re-used, until Release is called.
+type HeldUpload struct {
+	w       *World
+	op      Op
+	bundle  *Bundle
+	reached chan struct{}
+	release chan struct{}
+	done    chan error
+	once    sync.Once
+	err     error
+}
+
+// StartHeldUpload starts the upload and returns once it is parked before its first metadata write
+// (or has ended early, in which case the error - or a harness error - is returned)
+func (w *World) StartHeldUpload(o Op, phase string) (*HeldUpload, error) {
+	if o.Kind != OpUpload {
+		return nil, fmt.Errorf("harness: held op must be an upload")
+	}
+	if o.Ctx >= len(w.Users) {
+		o.Ctx = 0
+	}
+	if o.Repo >= w.Shape.Repos[o.Ctx] {
+		o.Repo = 0
+	}
+	repo := RepoName(o.Ctx, o.Repo)
+	w.seq++
+	id := hx.KSUID(w.seq, uint64(w.seq))
+	tree := TreeOf(o)
+	h := &HeldUpload{w: w, op: o, reached: make(chan struct{}), release: make(chan struct{}), done: make(chan error, 1)}
+	h.bundle = &Bundle{Ctx: o.Ctx, Repo: repo, ID: id, Leaf: o.Leaf, Tree: tree, Phase: phase, Alive: true}
+	flyer := w.Envs[o.Ctx].Actor("flyer")
+	var first sync.Once
+	flyer.Meta.Before(func(c *memstore.Call) error {
+		if c.Op == memstore.OpPut && strings.Contains(c.Key, "bundles/"+repo+"/"+id+"/") {
+			first.Do(func() {
+				close(h.reached)
+				<-h.release
+			})
+		}
+		return nil
+	})
+	dir := w.Sc.Dir("src")
+	if err := tree.Write(dir); err != nil {
+		return nil, err
+	}
+	go func() {
+		b := hx.NewBundle(repo, flyer.Stores, hx.Local(dir), o.Leaf, core.BundleID(id))
+		h.done <- core.Upload(context.Background(), b)
+	}()
+	select {
+	case <-h.reached:
+		return h, nil
+	case err := <-h.done:
+		return nil, fmt.Errorf("%s (held): ended before writing any metadata: %v", o, err)
+	}
+}
+
+// Finish lets the upload commit, waits for it and adds the bundle to the model (idempotent)
+func (h *HeldUpload) Finish() error {
+	h.once.Do(func() {
+		close(h.release)
+		if err := <-h.done; err != nil {
+			h.err = fmt.Errorf("%s (held): %v", h.op, err)
+			return
+		}
+		h.w.Bundles = append(h.w.Bundles, h.bundle)
+	})
+	return h.err
+}
